@@ -663,6 +663,19 @@ func (fr *frame) lookup(x *ssa.Lookup, st *State) {
 		return
 	}
 	mt := x.X.Type().Underlying().(*types.Map)
+	switch mt.Key().Underlying().(type) {
+	case *types.Struct, *types.Array:
+		// composite keys compare structurally in Go but are references in this model:
+		// the lookup is abstracted to an arbitrary answer (sound over-approximation)
+		s.note("%s: lookup in a map keyed by %s abstracted (arbitrary result)", FuncKey(fr.fn), mt.Key().String())
+		val := s.freshValue(st, fr.name(x), mt.Elem())
+		if x.CommaOk {
+			fr.vals[x] = TV{S: "Tuple", Tup: []TV{val, {T: s.fresh(fr.name(x)+".ok", "Bool"), S: "Bool"}}}
+		} else {
+			fr.vals[x] = val
+		}
+		return
+	}
 	dn, vn := MapMapNames(mt)
 	ks, vs := SortOf(mt.Key()), SortOf(mt.Elem())
 	d := s.getMap(st, dn, "(Array Int (Array "+ks+" Bool))")
